@@ -16,22 +16,36 @@ def run(ctx):
     r = ctx.tlc("MC_Values", "MC_Values.cfg").require_clean()
     res.add_tlc(r)
     cells = ctx.tlc("MC_Values", "Gen_Values.cfg").json_lines("GEN")
-    if len(cells) != 234:
-        raise vlib.Inconclusive("expected 234 table cells, generator gave %d" % len(cells))
+    if len(cells) != 243:
+        raise vlib.Inconclusive("expected 243 table cells, generator gave %d" % len(cells))
     evs, _, _ = run_harness(ctx, "object", "TestVerifAccessors", {"cells": cells, "draws": 12 if q else 150})
+    # objects read side by side (pub builds the parts of a post in goroutines of their own); a fault there ends the process
+    sevs, rc, txt = run_harness(ctx, "object", "TestVerifAccessorsSideBySide", {}, allow_fail=True, name="sidebyside")
+    begun = [e for e in sevs if e["ev"] == "begin"]
+    ended = [e for e in sevs if e["ev"] == "end"]
+    sevs = [e for e in sevs if e["ev"] == "accessor"]
+    if rc != 0:
+        if begun and not ended and ("fatal error:" in txt or "panic:" in txt):
+            first = [l for l in txt.splitlines() if "fatal error:" in l or "panic:" in l][:1]
+            sevs.append({"ev": "accessor", "acc": "GetMediaType", "class": "str_mime", "json": "(eight readers side by side)", "outcome": "panic", "got": "", "want": "",
+                         "again": "", "panic": True, "mutated": False, "what": "the process ended: " + (first[0] if first else txt[-300:])})
+        else:
+            raise vlib.Inconclusive("side-by-side harness failed:\n" + txt[-2000:])
+    res.extra["reads_side_by_side"] = len(sevs)
+    evs = evs + sevs
     bad, r2 = vlib.judge(ctx, "T_Values", "T_Values.cfg", evs)
     res.traces = len(evs)
     for e in evs:
         res.case([e["acc"], e["class"], e["json"]])
-    res.rule = ("a case is one call of a real accessor on a concrete JSON text of a known value class (25 classes: null, booleans, "
-                "8 number classes incl. negative, fractional, 2^53, 2^63, 2^64 boundaries and 1e300, 10 string classes incl. control "
-                "characters, arrays, objects); judged by T_Values against the decision table of Values.tla and for returned values "
+    res.rule = ("a case is one call of a real accessor on a concrete JSON text of a known value class (26 classes: null, booleans, "
+                "8 number classes incl. negative, fractional, 2^53, 2^63, 2^64 boundaries and 1e300, 11 string classes incl. control "
+                "characters and invisible format characters, arrays, objects); judged by T_Values against the decision table of Values.tla and for returned values "
                 "against the canonical faithful value; distinct = distinct (accessor, class, JSON text)")
     for e in evs[:1] + [x for x in evs if x["acc"] == "GetNumber" and x["class"] == "num_big_in_range"][:1] + evs[-1:]:
         res.sample({k: e[k] for k in ("acc", "class", "json", "outcome", "got", "want")})
     res.exhaustive = False
     res.extra["table_cells"] = len(cells)
-    res.assumptions = ["classes are assigned by the generator, which only draws unambiguous members", "GetList on an empty array may report a value or absent"]
+    res.assumptions = ["a value handed out (URL, media type) is scribbled over by its holder before the same JSON is read again from a second copy; eight goroutines read objects of their own side by side", "classes are assigned by the generator, which only draws unambiguous members", "GetList on an empty array may report a value or absent"]
     for b in bad:
         e = evs[b["line"] - 1]
         sig = {"monitor": "T_Values", "why": b["why"], "acc": e["acc"], "class": e["class"]}
